@@ -32,7 +32,7 @@ EvOp == CASE Ev.op = "new" -> [op |-> "new", up |-> Ev.up, oneway |-> Ev.oneway,
           [] Ev.op \in {"goaway", "rclose", "garbage"} -> [op |-> Ev.op, c |-> Ev.c]
           [] OTHER -> [op |-> Ev.op]
 
-ReqBook(q) == IF maxReq = 0 THEN 0 ELSE q.req
+ReqBook(q) == q.req      \* the resource counts whether or not a limit is configured (fix 5ab5b615d)
 Connected == 2
 
 MResult(r) == /\ r.res = Ev.res
